@@ -23,6 +23,7 @@ Constraints == {
 Queries == {
     [name |-> "SetA", sql |-> <<"UPDATE", "Item", "SET", "A", "=", "$", "v", "$", "WHERE", "B", "=", "$", "w", "$">>],
     [name |-> "SetTwice", sql |-> <<"UPDATE", "Item", "SET", "A", "=", "$", "x", "$", "WHERE", "B", "=", "$", "y", "$", "OR", "A", "=", "$", "x", "$">>],
+    [name |-> "SetAgain", sql |-> <<"UPDATE", "Item", "SET", "A", "=", "$", "x", "$", "WHERE", "A", "=", "$", "x", "$", "OR", "B", "=", "$", "y", "$">>],   \* a name repeated BEFORE a new one appears
     [name |-> "SetKind", sql |-> <<"UPDATE", "Item", "SET", "K", "=", "#", "[", "Kind", ".", "KA", "]", "WHERE", "C", "=", "$", "color", "$", "AND", "K", "=", "$", "old", "$">>] }
 
 Fields == << [name |-> "Id", gotype |-> "int64"], [name |-> "A", gotype |-> "int"], [name |-> "B", gotype |-> "string"],
